@@ -26,3 +26,4 @@ c12 = B("bounded.c12")
 c13 = B("bounded.c13")
 c09 = B("bounded.c09")
 c02 = B("bounded.c02")
+c15 = B("bounded.c15")
